@@ -903,6 +903,11 @@ class _Parser(barectf_config_parse_common._Parser):
                 if pkt_ctx_ft_extra_members_node is not None:
                     try:
                         for member_node in pkt_ctx_ft_extra_members_node:
+                            if type(member_node) is not collections.OrderedDict or len(member_node) != 1:
+                                # invalid member node: reported by the
+                                # schema validation which follows
+                                continue
+
                             member_node = list(member_node.values())[0]
 
                             if type(member_node) is collections.OrderedDict:
@@ -986,6 +991,11 @@ class _Parser(barectf_config_parse_common._Parser):
 
             if pkt_ctx_ft_extra_members_node is not None:
                 for member_node in pkt_ctx_ft_extra_members_node:
+                    if type(member_node) is not collections.OrderedDict or len(member_node) != 1:
+                        # invalid member node: reported by the schema
+                        # validation which follows
+                        continue
+
                     member_node = list(member_node.values())[0]
 
                     if type(member_node) is collections.OrderedDict:
@@ -1014,6 +1024,11 @@ class _Parser(barectf_config_parse_common._Parser):
             ft_prop_name = 'field-type'
 
             for member_node in members_node:
+                if type(member_node) is not collections.OrderedDict or len(member_node) != 1:
+                    # Invalid member node: the schema validation which
+                    # follows reports it.
+                    continue
+
                 member_name, val_node = list(member_node.items())[0]
 
                 if type(val_node) is str:
